@@ -656,4 +656,7 @@ func c03(c *ctx) {
 	for k := 0; k < ncr; k++ {
 		c03closeSendFails(c, k)
 	}
+	for k := 0; k < ncr; k++ {
+		c03lateAccept(c, k)
+	}
 }
